@@ -4,6 +4,10 @@ import (
 	"context"
 	"fmt"
 	"strings"
+	"time"
+
+	"github.com/go-kit/log"
+	"github.com/prometheus/client_golang/prometheus"
 
 	"github.com/thanos-io/thanos/pkg/receive"
 
@@ -87,6 +91,25 @@ func runC27(x *simkit.Exec) {
 	}
 	x.Event("config %s algo=%s", strings.Join(desc, " "), algo)
 
+	// A third of the runs ends with a reload through a receive handler: a second configuration with the
+	// same entries and endpoints but the tenant lists rotated among the named entries (and possibly the
+	// entries reversed) is installed with Handler.Hashring after the first; what the handler routes with
+	// afterwards must follow the second configuration.
+	var cfg2 []receive.HashringConfig
+	if nNamed >= 1 && x.Bool("reload-through-handler", 1, 3) {
+		cfg2 = make([]receive.HashringConfig, len(cfg))
+		copy(cfg2, cfg)
+		rot := x.Range("reload.rotate", 0, nNamed)
+		for i := 0; i < nNamed; i++ {
+			j := (i + rot) % nNamed
+			cfg2[i].Tenants, cfg2[i].TenantMatcherType = cfg[j].Tenants, cfg[j].TenantMatcherType
+		}
+		if rot%nNamed == 0 {
+			// nothing moved: give the first entry another tenant list instead
+			cfg2[0].Tenants = []string{c27Tenants[x.Draw("reload.tenant", len(c27Tenants))]}
+			cfg2[0].TenantMatcherType = receive.TenantMatcherTypeExact
+		}
+	}
 	x.Nontrivial = true
 	x.Bubble("c27", func(s *simkit.Sim) {
 		c := &cluster{x: x, s: s, guard: installGuard(), algo: algo, rf: 1, gens: [][]receive.HashringConfig{cfg}, nodes: nodes, series: series}
@@ -172,7 +195,54 @@ func runC27(x *simkit.Exec) {
 		s.Loop()
 		if s.Stuck() {
 			x.Troublef("c27: scheduler stuck")
+			return
 		}
+		if cfg2 == nil || x.Failed() {
+			return
+		}
+		ring1, err1 := receive.NewMultiHashring(algo, 1, cfg, prometheus.NewRegistry())
+		ring2, err2 := receive.NewMultiHashring(algo, 1, cfg2, prometheus.NewRegistry())
+		if err1 != nil || err2 != nil {
+			x.Troublef("c27: reload configurations do not load: %v / %v", err1, err2)
+			return
+		}
+		lim, err := receive.NewLimiter(nil, prometheus.NewRegistry(), receive.RouterOnly, log.NewNopLogger(), time.Hour)
+		if err != nil {
+			x.Troublef("c27: limiter: %v", err)
+			return
+		}
+		h := receive.NewHandler(log.NewNopLogger(), &receive.Options{Endpoint: "self:10901", ReplicationFactor: 1, ReceiverMode: receive.RouterOnly,
+			Limiter: lim, MaxBackoff: time.Millisecond, AsyncForwardWorkerCount: 1, ReplicationProtocol: receive.ProtobufReplication})
+		defer h.Close()
+		h.Hashring(ring1)
+		h.Hashring(ring2)
+		cur := h.VerifHashring()
+		expect2 := func(tenant string) int {
+			for i, hc := range cfg2 {
+				if len(hc.Tenants) == 0 || listMatches(hc.Tenants, string(hc.TenantMatcherType), tenant) {
+					return i
+				}
+			}
+			return -1
+		}
+		var desc2 []string
+		for _, hc := range cfg2 {
+			desc2 = append(desc2, fmt.Sprintf("%s[%s %v]", hc.Hashring, hc.TenantMatcherType, hc.Tenants))
+		}
+		for _, tenant := range c27Tenants {
+			ep, err := cur.GetN(tenant, series[0], 0)
+			got := -1
+			if err == nil {
+				got = owner[ep.Address]
+			}
+			if want := expect2(tenant); got != want {
+				s.Violate("reload-takes-effect", "handler-routes-by-earlier-configuration",
+					"after Handler.Hashring(first) and Handler.Hashring(second) tenant %q is served by %s, the second configuration says %s\nfirst:  %s\nsecond: %s",
+					tenant, ringName(cfg2, got), ringName(cfg2, want), strings.Join(desc, " "), strings.Join(desc2, " "))
+				return
+			}
+		}
+		s.Probe("c27.reload_through_handler_checked")
 	})
 }
 
